@@ -35,6 +35,9 @@ type C03Case struct {
 	// KeyWindow: validity window (seconds relative to now, "from:to") of the response-signing certificate the storage hands
 	// out; "" = the static long-lived one. A certificate in its last minutes, or one that became valid a moment ago, is still valid.
 	KeyWindow string `json:"key_window,omitempty"`
+	// EarlierAudience: a moment ago the application was registered under this entity ID and the same provider answered a
+	// callback for it; since then the application has moved to the entity ID of the spec. Only the registration in force counts.
+	EarlierAudience string `json:"earlier_audience,omitempty"`
 }
 
 var timeFormats = []string{"", "", time.RFC3339, "2006-01-02T15:04:05.000000000Z", "2006-01-02T15:04:05Z", time.RFC3339Nano}
@@ -83,6 +86,9 @@ func genC03Case(t *rapid.T) C03Case {
 			// the application-to-entity lookup fails (with or without handing a value back)
 			c.FaultOp, c.Fault = "GetEntityIDByAppID", rapid.SampledFrom([]string{"error", "timeout", "errval"}).Draw(t, "fault2")
 		}
+	}
+	if rapid.IntRange(0, 3).Draw(t, "earlier-audience") == 0 {
+		c.EarlierAudience = rapid.SampledFrom([]string{"https://earlier-audience.example/metadata", "urn:example:earlier", stdSP(0).EntityID}).Draw(t, "earlier-audiencev")
 	}
 	if rapid.IntRange(0, 4).Draw(t, "keywindow") == 0 {
 		// about to expire (inside the assertion lifetime), valid since a moment ago, or a short-lived certificate: all valid now
@@ -342,6 +348,12 @@ func TestC03(t *testing.T) {
 		}
 		if c.KeyWindow != "" {
 			w.Store.RotateResponseKey("idp-response@" + c.KeyWindow)
+		}
+		if c.EarlierAudience != "" {
+			w.Store.SetApp(req.AppID, c.EarlierAudience)
+			obs.Do(w.Handler, hr)
+			w.Store.SetApp(req.AppID, c.Spec.Apps[req.AppID])
+			w.Store.ResetLog()
 		}
 		if c.Fault != "" {
 			op := c.FaultOp
